@@ -1,40 +1,41 @@
 #!/bin/sh
-# usage: selftest/run_all.sh [pattern]  — every mutant must be reported by the quick check of the property in its file name
-# (CTRL-* mutants name their property after the dash in selftest/ctrl_map). Prints SURVIVED lines; exit 1 if any.
+# usage: selftest/run_all.sh [pattern] [parallel jobs]  — every mutant must be reported by the quick check of the property in
+# its file name (CTRL-* mutants name their property and expectation in selftest/ctrl_map; selftest/equivalent/* must stay
+# quiet). Prints one line per mutant; exit 1 if any SURVIVED or FALSE-ALARM line was printed.
 cd /verif
-bad=0
-for m in selftest/mutants/${1:-*}.patch; do
+one() {
+  m=$1
   b=$(basename "$m" .patch)
-  id=${b%%-*}
-  want=kill
-  mapped=$(grep "^$b " selftest/prop_map 2>/dev/null | cut -d' ' -f2)
-  [ -n "$mapped" ] && id=$mapped
-  case "$b" in
-    CTRL-*) id=$(grep "^$b " selftest/ctrl_map | cut -d' ' -f2); want=$(grep "^$b " selftest/ctrl_map | cut -d' ' -f3);;
-    C08-batch-*|C07-batch-*) id=C06;;
-    C05-ruler-*) id=C04;;
+  case "$m" in
+    selftest/equivalent/*) id=${b%%-*}; want=pass;;
+    *)
+      id=${b%%-*}; want=kill
+      case "$b" in
+        CTRL-*) id=$(grep "^$b " selftest/ctrl_map | cut -d' ' -f2); want=$(grep "^$b " selftest/ctrl_map | cut -d' ' -f3);;
+        C08-batch-*|C07-batch-*) id=C06;;
+        C05-ruler-*) id=C04;;
+      esac
+      mapped=$(grep "^$b " selftest/prop_map 2>/dev/null | cut -d' ' -f2)
+      [ -n "$mapped" ] && id=$mapped;;
   esac
-  [ -z "$id" ] && { echo "NO-PROPERTY $b"; continue; }
+  [ -z "$id" ] && { echo "NO-PROPERTY $b"; return; }
   out=$(./selftest/run_mutant.sh "$m" "$id" 2>&1 | head -1)
+  case "$out" in *" quick: "*) ;; *PATCH-FAILED*) ;; *) echo "CHECK-ERROR $b: $out"; return;; esac
   if [ "$want" = pass ]; then
     case "$out" in
       *"violations=0"*) echo "quiet    $b ($id) as expected";;
-      *) echo "FALSE-ALARM $out"; bad=1;;
+      *) echo "FALSE-ALARM $out";;
     esac
-    continue
+    return
   fi
   case "$out" in
-    *"violations=0"*|*PATCH-FAILED*) echo "SURVIVED $out"; bad=1;;
+    *"violations=0"*|*PATCH-FAILED*) echo "SURVIVED $out";;
     *) echo "killed   $b ($id)";;
   esac
-done
-# equivalent mutants are negative controls: no alarm expected
-for m in selftest/equivalent/*.patch; do
-  b=$(basename "$m" .patch); id=${b%%-*}
-  out=$(./selftest/run_mutant.sh "$m" "$id" 2>&1 | head -1)
-  case "$out" in
-    *"violations=0"*) echo "quiet    $b ($id) as expected";;
-    *) echo "FALSE-ALARM $out"; bad=1;;
-  esac
-done
+}
+if [ "${1:-}" = "--one" ]; then one "$2"; exit 0; fi
+log=$(mktemp)
+ls selftest/mutants/${1:-*}.patch selftest/equivalent/*.patch | xargs -P "${2:-3}" -n 1 "$0" --one | tee "$log"
+bad=0; grep -q '^SURVIVED\|^FALSE-ALARM\|^CHECK-ERROR\|^NO-PROPERTY' "$log" && bad=1
+rm -f "$log"
 exit $bad
